@@ -653,6 +653,12 @@ def gen_C08(rng, tier, copy_flag=1):
                         data = rand_bytes(rng, (k + n) // 8 + 64, 'ones' if 'rc ' in cont else 'rand')
                         ops = [x for x in ['rb %d' % k if k else '', '%s %d' % (kind, n), 'pos', cont, 'wf', 'wd'] if x]
                         lines.append('S %s ww=%d copy=%d data=%s :: %s' % (cfg, ww, copy_flag, hexs(data), ' ; '.join(ops)))
+                        if cont is la[0] and (k + n) % 8 == 0:
+                            # the copy ends exactly at the end of the data: wholly inside it, so it succeeds
+                            # on a strict backend as well (no word beyond the last one may be fetched)
+                            exact = rand_bytes(rng, (k + n) // 8, 'rand')
+                            ops = [x for x in ['rb %d' % k if k else '', '%s %d' % (kind, n), 'pos', 'wf', 'wd'] if x]
+                            lines.append('S %s ww=%d copy=%d data=%s :: %s' % (cfg, ww, copy_flag, hexs(exact), ' ; '.join(ops)))
         for ww in WW:
             pres = ['wu %d' % (ww - 1), 'wb x1 1 ; wu %d' % (ww - 2), 'wu %d' % (2 * ww - 1)]
             if ww <= 64:
